@@ -164,6 +164,11 @@ def run(ctx):
                         col = back.tbl[k]
                         if u.Unit(col.unit) != u.Unit(units[k]):
                             bad = "unit of %s: %s != %s" % (k, col.unit, units[k])
+                        elif (k not in ("P", "e", "omega", "M0") and hasattr(s.tbl[k], "unit") and s.tbl[k].unit is not None
+                              and u.Unit(units[k]) != u.Unit(s.tbl[k].unit)):
+                            # no units were asked for: a linear or jitter column is packed in the table's own unit, whatever other
+                            # tables this process packed before
+                            bad = "unit of %s: the table has %s, pack() without units returned %s" % (k, s.tbl[k].unit, units[k])
                         elif not np.array_equal(np.asarray(col.value), arr[:, j]):
                             bad = "values of %s changed in unpack" % k
                         else:
